@@ -87,6 +87,52 @@ def analyse(chk, tier, prefixes):
     return found
 
 
+def cpu_conformance(chk, tier):
+    """Dynamic binding: the real routines are single-stepped under ptrace (drv asmtrace) for two
+    different random data sets per length vector; the abstract machine must follow each recorded
+    instruction sequence exactly (trace-following mode of AsmMachine)."""
+    rng = chk.rng
+    found, traces, steps = [], 0, 0
+    vec = [(0, 0, 12, 16), (1, 0, 12, 12), (5, 3, 12, 16), (15, 0, 13, 13), (16, 16, 12, 16), (33, 130, 16, 12), (100, 20, 12, 16),
+           (300, 0, 1, 16), (64, 129, 128, 16), (257, 17, 12, 14), (511, 0, 300, 16), (1100, 1100, 12, 16)]
+    if tier == "thorough":
+        vec += [(rng.randrange(0, 1101), rng.randrange(0, 1101), rng.choice([12, 12, rng.randrange(1, 301)]),
+                 rng.randrange(12, 17)) for _ in range(90)]
+    jobs = []
+    for routine, kind in (("sealAsm", "seal"), ("openAsm", "open")):
+        ctxs = []
+        prog = ac.program(chk, "gcm_amd64.s", routine)
+        for v in vec:
+            base = ac.ctx_gcm([v], kind == "open")[0]
+            for seed in (1, 2):
+                tr = ac.cpu_trace(chk, routine, prog, [kind] + list(v) + [seed + 7 * core.seed()])
+                ctxs.append((base[0] + ",data=%d" % seed,) + base[1:] + (tr,))
+        jobs.append(("gcm_amd64.s", routine, ctxs))
+    for name, n in (("cryptoBlockAsm", 1), ("cryptoBlockAsmX2", 2), ("cryptoBlockAsmX4", 4), ("cryptoBlockAsmX8", 8),
+                    ("cryptoBlockAsmX16", 16)):
+        prog = ac.program(chk, "asm_amd64.s", name)
+        base = ac.ctx_kernel(n)[0]
+        jobs.append(("asm_amd64.s", name, [(base[0] + ",data=%d" % sd,) + base[1:] + (ac.cpu_trace(chk, name, prog, ["kernel", n, sd]),)
+                                             for sd in (1, 2)]))
+    prog = ac.program(chk, "helper_amd64.s", "copyAsm")
+    jobs.append(("helper_amd64.s", "copyAsm", [(c[0],) + c[1:] + (ac.cpu_trace(chk, "copyAsm", prog, ["copy", L, 3]),)
+                                                 for L, c in ((L, ac.ctx_copy([L])[0]) for L in (0, 1, 7, 8, 13, 64, 65, 1000))]))
+    for fname, rt, ctxs in jobs:
+        res, st = ac.run_routine(chk, fname, rt, ctxs, workers=8 if len(ctxs) > 8 else 2)
+        chk.states += st["distinct"]
+        chk.transitions += st["generated"]
+        for r in res:
+            traces += 1
+            steps += r["steps"]
+            for e in r["errs"]:
+                if e.startswith("C09"):
+                    found.append((rt, r["ctx"], e))
+    chk.extra["cpu_traces_followed"] = traces
+    chk.extra["cpu_instructions_followed"] = steps
+    chk.accepted += traces - len(set((f[0], f[1]) for f in found))
+    return found
+
+
 def report(chk, found, strip):
     bykey = {}
     for rt, ctx, msg in found:
@@ -106,10 +152,10 @@ def strip_c09(msg):
 def run(tier):
     chk = Check(PROP, tier)
     found = analyse(chk, tier, ("C09",))
+    found += cpu_conformance(chk, tier)
     report(chk, found, strip_c09)
     chk.events = chk.extra["asm_paths"]
     chk.classes = {"length_vectors": chk.extra["asm_contexts"]}
-    chk.accepted = 0
     return chk.finish(
         "model_checking",
         "every amd64 assembly routine that has a Go declaration (needExpand, copyAsm, expandKeyAsm, the five block "
@@ -118,8 +164,12 @@ def run(tier):
         "by the TLA+ abstract machine for each length vector (text / aad / nonce / tag swept separately and mixed); "
         "all key, data, nonce, aad and scratch bytes are the single abstract value `sec`, so each explored path holds "
         "for ALL data values; a branch on sec flags or an access through a sec base is reported; openAsm must take "
-        "exactly one data-dependent branch (the verdict), both outcomes explored",
-        ["TLC; the opcode classification table in vlib/asmx.py (fail closed on anything unknown) and the value "
+        "exactly one data-dependent branch (the verdict), both outcomes explored; conformance with the CPU: the real "
+        "sealAsm / openAsm / kernels / copyAsm are single-stepped under ptrace for two random data sets per length "
+        "vector and the machine must follow every recorded instruction sequence exactly (so the sequences are equal "
+        "across data, and the machine's branch semantics are validated against the processor)",
+        ["traces_validated_against_impl counts ptrace PC traces of the real routines that the machine followed to the RET",
+         "TLC; the opcode classification table in vlib/asmx.py (fail closed on anything unknown) and the value "
          "semantics in AsmMachine.tla; Go assembler's listing",
          "arm64: all twelve TEXT symbols are executed by the same machine with an arm64 classification table "
          "(post-increment and multi-register loads/stores expanded, hand-encoded WORDs decoded as TBL/TBX or "
